@@ -61,7 +61,25 @@ pub fn run(s: &dyn Subject, ctx: &Ctx) -> Option<DeclReport> {
             rep.sample(format!("{} :: conversions({}) all == {}", spec.src.replace('\n', " "), raw.show(), base.show()));
         }
     }
-    if ctx.only_input.is_none() || ctx.only_input.as_deref() == Some("<default>") {
+    // impure default expression: the k-th call must behave like the constructor on the k-th value
+    if let Some(seq) = spec.tag_value("default_seq") {
+        for (k, txt) in seq.split(',').enumerate() {
+            let Ok(n) = txt.parse::<i128>() else { continue };
+            let draw = Value::I(n);
+            let Some(obs) = s.default() else { break };
+            let base = s.ctor(&draw);
+            rep.executions += 1;
+            let ok = match (&obs, &base) {
+                (Obs::Ok(a), Obs::Ok(b)) => a == b,
+                (Obs::Panic(_), Obs::Err { .. }) => true,
+                _ => false,
+            };
+            if !ok {
+                rep.violate("Default:later-call-differs-from-constructor", format!("<default call #{}>", k + 1), obs.show(), base.show(), format!("default expression evaluated to {}", draw.show()));
+            }
+            rep.class(if obs.is_ok() { "default-seq:returns" } else { "default-seq:panics" });
+        }
+    } else if ctx.only_input.is_none() || ctx.only_input.as_deref() == Some("<default>") {
         if let (Some(obs), Some(draw)) = (s.default(), spec.default.as_ref()) {
             let base = s.ctor(draw);
             rep.executions += 1;
